@@ -70,6 +70,12 @@ def generate(r, tier):
             asg.append([nm, r.choice(kgen.SANE[t] if r.random() < 0.9 else kgen.VALS[t])])
         steps.append({"set": asg, "ver": ver})
     sc["steps"] = steps
+    # several dependency directories served by one configuration (kconfgen takes --output cdep_tree more than once),
+    # and a long-lived instance that syncs repeatedly (fault-free histories only: a crash ends the process)
+    sc["ndirs"] = 2 if r.random() < 0.3 else 1
+    for st in steps:
+        st["dirs"] = [0] if sc["ndirs"] == 1 else r.choice([[0], [1], [0, 1], [1, 0], [0, 1]])
+    sc["reuse"] = r.random() < 0.5
     sc["crash_step"] = r.randrange(0, len(steps)) if r.random() < 0.75 else None
     sc["rerun_same"] = r.random() < 0.4  # insert a rerun on the unchanged configuration right after the crashed sync
     sc["torn"] = [0.0] + [round(r.random(), 3) for _ in range(r.choice([1, 1, 2]))]
@@ -98,8 +104,11 @@ def _H(k):
     return h
 
 
-def _relpath(name):
-    return os.path.join("deps", name.lower().replace("_", os.sep) + ".cdep")
+DIRNAMES = ["deps", "depsb"]
+
+
+def _relpath(name, d=0):
+    return os.path.join(DIRNAMES[d], name.lower().replace("_", os.sep) + ".cdep")
 
 
 def execute(sc, ctx):
@@ -116,7 +125,8 @@ def execute(sc, ctx):
         rn = os.path.join(sb, "sdkconfig.rename")
         with builtins.open(rn, "w") as f:
             f.write(sc["renames"])
-    deps = os.path.join(sb, "deps")
+    ndirs = 2 if sc.get("ndirs") == 2 else 1
+    dpaths = [os.path.join(sb, DIRNAMES[d]) for d in range(ndirs)]
     fs = simfs.SimFS(sb, chunk=sc["chunk"])
     mods = [simproc.core]
 
@@ -125,42 +135,103 @@ def execute(sc, ctx):
     for i, st in enumerate(sc["steps"]):
         steps.append((i, st, sc["crash_step"] == i))
         if sc["crash_step"] == i and sc.get("rerun_same"):
-            steps.append((i, {"set": [], "ver": st["ver"]}, False))
+            steps.append((i, {"set": [], "ver": st["ver"], "dirs": st.get("dirs", [0])}, False))
 
-    # one node per step (a fresh process per sync, cumulative assignments), reused across crash variants
-    nodes = []
+    def step_dirs(idx):
+        return [d for d in steps[idx][1].get("dirs", [0]) if d < ndirs] or [0]
+
+    # A crash kills the process, so every sync after an interrupted one is a fresh instance; in fault-free histories the
+    # instance may also be long-lived (one process that changes values and syncs again, possibly into several directories:
+    # `kconfgen --output cdep_tree A --output cdep_tree B`).
+    reuse = bool(sc.get("reuse")) and sc["crash_step"] is None
+
+    def describe(k):
+        aliases = {}
+        if k._deprecated_options:
+            for s in k.unique_defined_syms:
+                al = list(k._deprecated_options.get_deprecated_option(s.name))
+                if al:
+                    aliases[s.name] = al
+        return (k, _H(k), _R(k), aliases)
+
+    def assign(k, pairs):
+        for nm, v in pairs:
+            s = k.syms.get(nm)
+            if s is not None and s.nodes:
+                s.set_value(v)
+
+    nodes = {}
+    cums = []
     cum = []
     for _, st, _c in steps:
         cum = cum + st["set"]
+        cums.append(cum)
+    if not reuse:
+        # one node per step (a fresh process per sync, cumulative assignments), reused across crash variants
+        for idx, (_, st, _c) in enumerate(steps):
+            try:
+                k = simproc.new_kconfig(kpaths[min(st["ver"], len(kpaths) - 1)], parser=sc["parser"], renames=[rn] if rn else None)
+                with simproc.quiet():
+                    assign(k, cums[idx])
+                    nodes[idx] = describe(k)
+            except Exception as e:
+                ctx.counters["op_raised:" + type(e).__name__] += 1
+                ctx.ev("setup-raised", type(e).__name__)
+                return
+    def fresh(idx):
+        """A new process for the sync of step idx (every crash variant is its own world: instances are not shared between
+        worlds, and no instance survives the crash inside one)."""
+        st = steps[idx][1]
+        k = simproc.new_kconfig(kpaths[min(st["ver"], len(kpaths) - 1)], parser=sc["parser"], renames=[rn] if rn else None)
+        with simproc.quiet():
+            assign(k, cums[idx])
+        return k
+
+    live = {}  # ver -> [instance, number of cumulative assignments applied]
+
+    def prepare(idx):
+        if idx in nodes and not reuse:
+            return nodes[idx]
+        st = steps[idx][1]
+        ver = min(st["ver"], len(kpaths) - 1)
+        if ver not in live:
+            live[ver] = [simproc.new_kconfig(kpaths[ver], parser=sc["parser"], renames=[rn] if rn else None), 0]
+        k, done = live[ver]
+        with simproc.quiet():
+            assign(k, cums[idx][done:])
+            live[ver][1] = len(cums[idx])
+            nodes[idx] = describe(k)
+        return nodes[idx]
+
+    class SyncRaised(Exception):
+        pass
+
+    def sync(k, d):
         try:
-            k = simproc.new_kconfig(kpaths[min(st["ver"], len(kpaths) - 1)], parser=sc["parser"], renames=[rn] if rn else None)
-            with simproc.quiet():
-                for nm, v in cum:
-                    s = k.syms.get(nm)
-                    if s is not None and s.nodes:
-                        s.set_value(v)
-                aliases = {}
-                if k._deprecated_options:
-                    for s in k.unique_defined_syms:
-                        al = list(k._deprecated_options.get_deprecated_option(s.name))
-                        if al:
-                            aliases[s.name] = al
-                nodes.append((k, _H(k), _R(k), aliases))
-        except Exception as e:
-            ctx.counters["op_raised:" + type(e).__name__] += 1
-            ctx.ev("setup-raised", type(e).__name__)
-            return
+            with simfs.Installed(fs, mods, copyfile=False), simproc.quiet():
+                k.sync_deps(dpaths[d])
+        except SimCrash:
+            raise
+        except Exception as e:  # noqa: B902
+            # a sync that cannot complete loses every trigger it should have raised; after an interrupted run this is
+            # exactly the "later rerun" of the statement (e.g. a torn auto.conf that no longer decodes)
+            import traceback
 
-    def sync(k):
-        with simfs.Installed(fs, mods, copyfile=False), simproc.quiet():
-            k.sync_deps(deps)
+            fn = traceback.extract_tb(e.__traceback__)[-1].name
+            how = "fault-free" if all(st["clean"] for st in states) else "after-crash"
+            ctx.violate(f"C12/sync-raised/{type(e).__name__}/{fn}/{how}", f"sync_deps({DIRNAMES[d]}) raised {type(e).__name__}: {e}")
+            raise SyncRaised() from e
 
-    state = {"touched": {}, "H": {}, "R": {}, "aliases": {}, "done_tick": 0, "clean": True}
+    def new_state():
+        return {"H": {}, "R": {}, "aliases": {}, "done_tick": 0, "clean": True, "tag": None}
+
+    touched = {}
+    states = [new_state() for _ in range(ndirs)]
 
     def account(t0):
         for tick, kind, path, _info in fs.ops_since(t0):
             if kind == "touch":
-                state["touched"][path] = tick
+                touched[path] = tick
 
     def changed_names(old, new, old_alias, new_alias):
         out = set()
@@ -171,64 +242,78 @@ def execute(sc, ctx):
                 out.update(new_alias.get(n, ()))
         return out
 
-    def completed(idx, t0, tag):
-        """Oracles after a completed sync of step list index idx."""
-        k, H, R, aliases = nodes[idx]
+    def completed(idx, d, t0, k=None):
+        """Oracles after a completed sync of step list index idx into directory d."""
+        k0, H, R, aliases = nodes[idx]
+        k = k or k0
+        state = states[d]
+        tag = state["tag"]
         chg_h = changed_names(state["H"], H, state["aliases"], aliases)
         chg_r = changed_names(state["R"], R, state["aliases"], aliases)
+        dtag = "" if d == 0 else "/second-directory"
         for n in sorted(chg_h):
-            if state["touched"].get(_relpath(n), 0) <= state["done_tick"]:
+            if touched.get(_relpath(n, d), 0) <= state["done_tick"]:
                 kind = "alias" if (n not in H and n not in state["H"]) else (
                     "appeared" if n not in state["H"] else ("disappeared" if n not in H else "changed"))
                 how = "fault-free" if tag is None else "after-crash-in-" + tag
-                ctx.violate(f"C12/lost-trigger/{kind}/{how}",
-                            f"option {n}: build-visible value {state['H'].get(n)!r} -> {H.get(n)!r} between completed syncs, "
-                            f"but {_relpath(n)} was not touched since the earlier one (step {steps[idx][0]}, {how})")
+                ctx.violate(f"C12/lost-trigger/{kind}/{how}{dtag}",
+                            f"option {n}: build-visible value {state['H'].get(n)!r} -> {H.get(n)!r} between completed syncs of {DIRNAMES[d]}, "
+                            f"but {_relpath(n, d)} was not touched since the earlier one (step {steps[idx][0]}, {how}"
+                            f"{', long-lived instance' if reuse else ''})")
         if state["clean"]:
-            allowed = {_relpath(n) for n in chg_r}
+            allowed = {_relpath(n, d) for n in chg_r}
             for tick, kind, path, _info in fs.ops_since(t0):
                 if kind == "touch" and path not in allowed:
-                    ctx.violate("C12/over-touch", f"{path} touched by the sync of step {steps[idx][0]} although no option mapping to it changed")
+                    ctx.violate("C12/over-touch" + dtag, f"{path} touched by the sync of step {steps[idx][0]} into {DIRNAMES[d]} although no option mapping to it changed")
             # idempotence: an immediately repeated sync adds no journal entry
             t1 = fs.tick
             fs.arm()
-            sync(k)
+            try:
+                sync(k, d)
+            except SyncRaised:
+                pass
             extra = fs.ops_since(t1)
             ctx.events += fs.opcount
             if extra:
-                ctx.violate("C12/not-idempotent", f"repeated sync performed {[(e[1], e[2]) for e in extra][:6]}")
+                ctx.violate("C12/not-idempotent" + dtag, f"repeated sync performed {[(e[1], e[2]) for e in extra][:6]}")
             account(t1)
         if chg_h:
             ctx.counters["probe:changed-between-completed-syncs"] += 1
-        state.update(H=H, R=R, aliases=aliases, done_tick=fs.tick, clean=True)
+        state.update(H=H, R=R, aliases=aliases, done_tick=fs.tick, clean=True, tag=None)
 
     def run_from(start, crash_k, torn):
         """Run steps[start:], crashing the first of them at (crash_k, torn) if given."""
-        tag = None
         for idx in range(start, len(steps)):
-            k = nodes[idx][0]
-            t0 = fs.tick
+            k = prepare(idx)[0] if crash_idx is None else fresh(idx)
             if idx == start and crash_k is not None:
                 fs.arm(crash_at=crash_k, torn=torn)
             else:
                 fs.arm()
-            try:
-                sync(k)
-                crashed = False
-            except SimCrash:
-                crashed = True
+            crashed = False
+            for d in step_dirs(idx):
+                t0 = fs.tick
+                try:
+                    sync(k, d)
+                except SimCrash:
+                    crashed = True
+                except SyncRaised:
+                    return
+                account(t0)
+                if crashed:
+                    # mechanism class of the interruption: while flagging (.cdep touches) or while recording (auto.conf*)
+                    last = fs.journal[-1][2] if (fs.journal and fs.journal[-1][0] > t0) else ""
+                    states[d]["tag"] = "record-phase" if (fs.crash_kind in ("write", "truncate", "create", "replace") or "auto.conf" in last) else "touch-phase"
+                    states[d]["clean"] = False
+                    ctx.counters["crash_points_enumerated"] += 1
+                    break  # the process is dead: the remaining directories of this step are not synced
+                keep = (fs.opcount, fs.crash_at, fs.torn)
+                completed(idx, d, t0, k)
+                # completed() re-armed the disk for its idempotence probe; keep counting this step's operations (and keep
+                # its crash fault armed: it may be due in the sync of the step's next directory)
+                fs.opcount, fs.crash_at, fs.torn = keep
             ctx.events += fs.opcount
-            account(t0)
-            if crashed:
-                # mechanism class of the interruption: while flagging (.cdep touches) or while recording (auto.conf*)
-                last = fs.journal[-1][2] if (fs.journal and fs.journal[-1][0] > t0) else ""
-                tag = "record-phase" if (fs.crash_kind in ("write", "truncate", "create", "replace") or "auto.conf" in last) else "touch-phase"
-                state["clean"] = False
-                ctx.counters["crash_points_enumerated"] += 1
-                continue
-            if idx == start and crash_k is not None:
+            if not crashed and idx == start and crash_k is not None:
                 ctx.violate("C12/harness/crash-not-fired", f"crash point {crash_k} did not fire")
-            completed(idx, t0, tag)
 
     trace = []
     crash_idx = next((i for i, s in enumerate(steps) if s[2]), None)
@@ -236,36 +321,56 @@ def execute(sc, ctx):
         run_from(0, None, None)
         trace.append([j[1] for j in fs.journal])
         ctx.counters["probe:fault-free-history"] += 1
+        if reuse:
+            ctx.counters["probe:long-lived-instance"] += 1
     else:
         # fault-free prefix, then snapshot, dry run of the crash step to count its operations
         for idx in range(crash_idx):
-            k = nodes[idx][0]
-            t0 = fs.tick
-            fs.arm()
-            sync(k)
-            ctx.events += fs.opcount
-            account(t0)
-            completed(idx, t0, None)
-        snap_dir = os.path.join(sb, "snap")
-        if os.path.isdir(deps):
-            shutil.copytree(deps, snap_dir)
-        snap_state = copy.deepcopy({k: v for k, v in state.items()})
+            k = prepare(idx)[0]
+            for d in step_dirs(idx):
+                t0 = fs.tick
+                fs.arm()
+                try:
+                    sync(k, d)
+                except SyncRaised:
+                    return
+                ctx.events += fs.opcount
+                account(t0)
+                completed(idx, d, t0)
+        snaps = []
+        for d in range(ndirs):
+            sd = os.path.join(sb, "snap%d" % d)
+            if os.path.isdir(dpaths[d]):
+                shutil.copytree(dpaths[d], sd)
+            snaps.append(sd)
+        snap_state = copy.deepcopy(states)
+        snap_touched = dict(touched)
         snap_tick, snap_journal = fs.tick, len(fs.journal)
 
         def restore():
-            shutil.rmtree(deps, ignore_errors=True)
-            if os.path.isdir(snap_dir):
-                shutil.copytree(snap_dir, deps)
-            state.clear()
-            state.update(copy.deepcopy(snap_state))
+            for d in range(ndirs):
+                shutil.rmtree(dpaths[d], ignore_errors=True)
+                if os.path.isdir(snaps[d]):
+                    shutil.copytree(snaps[d], dpaths[d])
+            states[:] = copy.deepcopy(snap_state)
+            touched.clear()
+            touched.update(snap_touched)
             fs.tick = snap_tick
             del fs.journal[snap_journal:]
 
+        # dry run of the crash step: all its directories under one operation counter, no idempotence probes
         fs.arm()
-        sync(nodes[crash_idx][0])
+        kc = prepare(crash_idx)[0]
+        for d in step_dirs(crash_idx):
+            try:
+                sync(kc, d)
+            except SyncRaised:
+                return
         n_ops = fs.opcount
         kinds = [j[1] for j in fs.journal[snap_journal:]]
         trace.append(kinds)
+        if n_ops != len(kinds):
+            ctx.violate("C12/harness/op-count", f"dry run counted {n_ops} operations but journalled {len(kinds)}")
         for kidx in range(n_ops):
             variants = [None] + (sc["torn"] if kinds[kidx] == "write" else [])
             for torn in variants:
@@ -281,10 +386,13 @@ def execute(sc, ctx):
             ctx.counters["probe:tree-version-switch"] += 1
     if rn:
         ctx.counters["probe:rename-table"] += 1
+    if ndirs == 2:
+        ctx.counters["probe:two-directories"] += 1
     ctx.counters.update(fs.counters)
-    ctx.ev("c12", trace, [len(n[1]) for n in nodes])
+    order = sorted(nodes)
+    ctx.ev("c12", trace, [len(nodes[i][1]) for i in order])
     ctx.nontrivial = ctx.counters["probe:changed-between-completed-syncs"] > 0 and (crash_idx is None or ctx.counters["crash_points_enumerated"] > 0)
-    ctx.key = digest((kgen.prog_shape(sc["prog"]), trace, [sorted(n[2].items()) for n in nodes], sc["crash_step"], sc["chunk"]))
+    ctx.key = digest((kgen.prog_shape(sc["prog"]), trace, [sorted(nodes[i][2].items()) for i in order], sc["crash_step"], sc["chunk"]))
 
 
 def reductions(sc):
@@ -307,6 +415,20 @@ def reductions(sc):
     if sc.get("rerun_same"):
         c = copy.deepcopy(sc)
         c["rerun_same"] = False
+        yield c
+    if sc.get("ndirs") == 2:
+        c = copy.deepcopy(sc)
+        c["ndirs"] = 1
+        yield c
+        for i, st in enumerate(sc["steps"]):
+            if len(st.get("dirs", [0])) > 1:
+                for keep in st["dirs"]:
+                    c = copy.deepcopy(sc)
+                    c["steps"][i]["dirs"] = [keep]
+                    yield c
+    if sc.get("reuse"):
+        c = copy.deepcopy(sc)
+        c["reuse"] = False
         yield c
     if sc.get("renames"):
         c = copy.deepcopy(sc)
